@@ -73,6 +73,11 @@ fn assembly() -> R {
             let again_i = choice(nas);
             let again = must!(e2.add_assertion_envelope(parts[again_i].clone()), "re-add refused");
             ensure!(bytes(&again) == bytes(&e2), "add of present assertion not idempotent", "adding assertion {} again changed the envelope (order {:?})", again_i, order);
+            // the same assertion in another obscuration state is present too (presence is by digest)
+            for copy in [parts[again_i].elide(), parts[again_i].compress().unwrap_or_else(|_| parts[again_i].clone())] {
+                let again3 = must!(e2.add_assertion_envelope(copy), "re-add refused");
+                ensure!(again3.assertions().len() == e2.assertions().len() && dg(&again3) == dg(&e2), "add of an obscured copy of a present assertion not idempotent", "assertion {}", again_i);
+            }
             // an equal assertion built afresh (not the same Rc) is also recognised as present
             let fresh = build(&specs[again_i]);
             if dg(&fresh) == dg(&parts[again_i]) {
